@@ -79,6 +79,12 @@ type SugarDB struct {
 	// memUsed tracks the memory usage of the data in the store.
 	memUsed int64
 
+	// keySizes holds, for each database, the size that is currently accounted for in memUsed for each key.
+	// It is guarded by storeLock. Keeping the accounted size per key makes memUsed a function of the
+	// current dataset: overwriting, growing, deleting or flushing a key adjusts memUsed by exactly the
+	// difference between what was accounted for the key and what it occupies now.
+	keySizes map[int]map[string]int64
+
 	// Holds all the keys that are currently associated with an expiry.
 	keysWithExpiry struct {
 		// Mutex as only one process should be able to update this list at a time.
@@ -168,6 +174,7 @@ func NewSugarDB(options ...func(sugarDB *SugarDB)) (*SugarDB, error) {
 		storeLock: &sync.RWMutex{},
 		store:     make(map[int]map[string]internal.KeyData),
 		memUsed:   0,
+		keySizes:  make(map[int]map[string]int64),
 		keysWithExpiry: struct {
 			rwMutex sync.RWMutex
 			keys    map[int][]string
